@@ -1,4 +1,4 @@
-"""C11 - acknowledged replicated writes persist on a quorum (R11.1-R11.4)."""
+"""C11 - acknowledged replicated writes persist on a quorum (R11.1-R11.5)."""
 from ..facts import Program, Inconclusive, op_place
 from ..flow import Ev, walk, resolve_upvars, show, strip
 from ..gate import comparisons, switch_on, edge_dominates, linear, SWAP
@@ -93,7 +93,7 @@ def run(chk, facts_dir, tier):
     chk.rule("R11.2", "CONFIRM BEFORE ACK: in transaction::spawn every reply carrying Ok is dominated by the Ok arm of set_confirmations_with_retry")
     chk.rule("R11.3", "the confirmation count written is confirmed_replicas.len()")
     chk.rule("R11.4", "set_confirmations_with_retry returns Ok only on the Ok arm of Database::set_confirmations")
-    chk.not_decided += ["'never replaced, rolled back or hidden by any later history' (histories)", "that the replicas' Ok replies mean a durable append (C01/C12)"]
+    chk.not_decided += ["'never replaced, rolled back or hidden by any later history' (histories)", "that an append that returned Ok is durable (C01)"]
 
     rb = prog.body(RUN)
     chk.analysed(rb.path)
@@ -164,6 +164,38 @@ def run(chk, facts_dir, tier):
         else:
             chk.fail("R11.4", RETRY, "ok-without-write", "set_confirmations_with_retry can return Ok although no attempt to write the confirmation count succeeded "
                      "(e.g. after the retries are exhausted): the write is acknowledged with a confirmation count below quorum on disk", sb, s["line"])
+
+    # ---------------- R11.5: every member of the counted quorum has appended
+    chk.rule("R11.5", "COUNTED MEANS APPENDED: (a) every Ok return of transaction::run lies behind the success edge of the coordinator's own `database.append_events(..).await?` - "
+                      "the `None` entry the count starts with stands for a write the coordinator holds; (b) the replica's answer to ReplicateWrite, the value "
+                      "PartitionReplicatorActor::write_transaction returns, is the (error-mapped) result of its own Database::append_events and never an Ok built elsewhere")
+    n5 = 0
+    for ob, s in oks:
+        hits = variant_edge_dominates(rb, ev, ob, lambda term: has_call(term, lambda n: n.endswith("Database::append_events")), "std::ops::ControlFlow<", "0")
+        n5 += 1
+        if hits:
+            chk.ok("R11.5", "Ok return behind the success edge of the coordinator's own append", rb.where(s["line"]))
+        else:
+            chk.fail("R11.5", TX + "run", "coordinator-counted-without-append", "transaction::run can return Ok on a path that does not pass the success edge of the coordinator's own "
+                     "append_events: the quorum count includes the coordinator although it may not hold the write", rb, s["line"])
+    WT = "sierradb_cluster::write::replicate::PartitionReplicatorActor::write_transaction::{closure#0}"
+    wb = prog.body(WT)
+    chk.analysed(wb.path)
+    wev = Ev(prog, wb)
+    rets = [(i, j, s_) for i, j, s_ in wb.assigns() if s_["lhs"]["l"] == 0 and not s_["lhs"]["p"]]
+    if not rets:
+        raise Inconclusive("write_transaction: no assignment to the return place")
+    for i, j, s_ in rets:
+        term = resolve_upvars(prog, wev._rvalue(s_["rv"], (i, j), 0), wb)
+        n5 += 1
+        from_db = has_call(term, lambda n: n.endswith("Database::append_events"))
+        made_ok = any(isinstance(x, tuple) and x and x[0] == "agg" and str(x[1]).endswith("Result::Ok") for x in walk(term))
+        if from_db and not made_ok:
+            chk.ok("R11.5", "the replica answers with the result of its own append_events", wb.where(s_["line"]))
+        else:
+            chk.fail("R11.5", WT.rsplit("::", 1)[0], "replica-ack-without-append", "write_transaction can answer with a value that is not the result of the replica's own "
+                     "Database::append_events (%s): the coordinator counts an acknowledgement from a replica that does not hold the write" % show(term)[:80], wb, s_["line"])
+    chk.floor("R11.5", n5, 3)
     return {}
 
 
